@@ -89,6 +89,15 @@ CHECKS = {
                      'reply; request IDs consecutive with one outstanding, retransmissions identical; header version, SPIs, '
                      'exchange type and I/R flags right for every emitted message, across IKE_SA rekeys.',
                 note='IKE_SA_INIT retries are outside the window clauses; the DPD deadline is excluded from "unchanged"'),
+    'C16': dict(level='exploration', design='3 C16',
+                technique='Hypothesis-generated histories over two or three endpoints with concurrent IKE_SAs, duplicated rekey / '
+                          'delete messages, header SPI/flag rewrites, expiry notices and status queries; oracle = recorded routing '
+                          'decisions against the SPI-selection rule, table invariants after every event, status JSON == table',
+                text='Every process_message / process_expire call goes to the owner selected by header SPI + I flag (or SPI owner); '
+                     'IKE_SA_INIT requests create fresh responder entries; unknown SPIs change nothing; no duplicate, DELETED or '
+                     'never-negotiated (INITIAL) entry after any event; both ends agree after the drain; status output equals the '
+                     'table.',
+                note='routing is observed by wrapping IkeSa.process_message / process_expire from the harness'),
 }
 
 NOT_YET = 'check not built yet in this session (planned, see DESIGN.md section 8)'
